@@ -126,6 +126,11 @@ _HERE = os.path.dirname(os.path.dirname(os.path.abspath(__file__)))
 
 
 def _raised_by_contract(e: BaseException) -> bool:
+    if isinstance(e, AttributeError):
+        # the code under contract asks a stub of the contract for an attribute the stub does not model
+        mod = getattr(type(getattr(e, "obj", None)), "__module__", "") or ""
+        if getattr(e, "obj", None) is not None and (mod.startswith("contracts.") or mod.startswith("vf.")):
+            return True
     tb = e.__traceback__
     last = None
     while tb is not None:
@@ -445,7 +450,17 @@ class SymSeq(list):
             return ctx().branch(z3.Bool(f"eq!{self.elem.ident}!{x.ident}"))
         raise Unsupported("membership test on a symbolic sequence")
 
-    append = extend = insert = pop = index = count = sort = reverse = _unsup
+    append = extend = insert = pop = count = sort = reverse = _unsup
+
+    def index(self, x, *a):
+        """list.index: position of the FIRST element equal to x, ValueError when there is none -- the search-loop rule"""
+        if a:
+            raise Unsupported("list.index with start/stop on a symbolic sequence")
+        from .rt import NOTFOUND, SymEnum, search
+        r = search(SymEnum(self, 0), lambda t: t[1] == x, lambda t: t[0])
+        if r is NOTFOUND:
+            raise ValueError(f"{x!r} is not in list")
+        return r[0]
 
     def __eq__(self, o):
         return self is o
